@@ -154,9 +154,10 @@ end
 section
 variable {P : St → Prop}
 
-/-- a converter `f` of `α` into `β` that keeps `P` and establishes `R` -/
+/-- a converter `f` of `α` into `β`: the frame holds unconditionally; if `P` held before, it holds
+afterwards and `R` relates input and output -/
 def Good {α β : Type} (P : St → Prop) (f : St → α → Outcome (St × β)) (R : St → α → β → Prop) : Prop :=
-  ∀ st x st' y, P st → f st x = .ok (st', y) → Frame st st' ∧ P st' ∧ R st' x y
+  ∀ st x st' y, f st x = .ok (st', y) → Frame st st' ∧ (P st → P st' ∧ R st' x y)
 
 /-- `R` survives later calls -/
 def Stable {α β : Type} (R : St → α → β → Prop) : Prop :=
@@ -168,21 +169,24 @@ theorem loopM_good {α β : Type} {f : St → α → Outcome (St × β)} {R : St
   intro st xs
   induction xs generalizing st with
   | nil =>
-    intro st' ys hP h
+    intro st' ys h
     simp only [loopM] at h
     cases h
-    exact ⟨Frame.refl _, hP, trivial⟩
+    exact ⟨Frame.refl _, fun hP => ⟨hP, trivial⟩⟩
   | cons x xs ih =>
-    intro st' ys hP h
+    intro st' ys h
     simp only [loopM] at h
     split at h
     · rename_i st1 y hy
-      obtain ⟨f1, p1, r1⟩ := hf _ _ _ _ hP hy
+      obtain ⟨f1, k1⟩ := hf _ _ _ _ hy
       split at h
       · rename_i st2 ys' hys
         cases h
-        obtain ⟨f2, p2, r2⟩ := ih _ _ _ p1 hys
-        exact ⟨f1.trans f2, p2, hR _ _ _ _ f2 r1, r2⟩
+        obtain ⟨f2, k2⟩ := ih _ _ _ hys
+        refine ⟨f1.trans f2, fun hP => ?_⟩
+        obtain ⟨p1, r1⟩ := k1 hP
+        obtain ⟨p2, r2⟩ := k2 p1
+        exact ⟨p2, hR _ _ _ _ f2 r1, r2⟩
       · cases h
       · cases h
     · cases h
@@ -191,32 +195,32 @@ theorem loopM_good {α β : Type} {f : St → α → Outcome (St × β)} {R : St
 theorem namedM_good {α β : Type} {g : St → α → Outcome (St × β)} {R : St → α → β → Prop}
     (hg : Good P g R) :
     Good P (namedM g) (fun st (x : Str × α) (y : Str × β) => x.1 = y.1 ∧ R st x.2 y.2) := by
-  intro st x st' y hP h
+  intro st x st' y h
   simp only [namedM] at h
   split at h
   · rename_i st1 v hv
     cases h
-    obtain ⟨f1, p1, r1⟩ := hg _ _ _ _ hP hv
-    exact ⟨f1, p1, rfl, r1⟩
+    obtain ⟨f1, k1⟩ := hg _ _ _ _ hv
+    exact ⟨f1, fun hP => ⟨(k1 hP).1, rfl, (k1 hP).2⟩⟩
   · cases h
   · cases h
 
 theorem optM_good {β : Type} {g : St → WVal → Outcome (St × β)} {R : St → WVal → β → Prop}
     (hg : Good P g R) :
     Good P (optM g) (fun st o o' => ROpt (R st) o o') := by
-  intro st x st' y hP h
+  intro st x st' y h
   cases x with
   | none =>
     simp only [optM] at h
     cases h
-    exact ⟨Frame.refl _, hP, trivial⟩
+    exact ⟨Frame.refl _, fun hP => ⟨hP, trivial⟩⟩
   | some v =>
     simp only [optM] at h
     split at h
     · rename_i st1 y' hv
       cases h
-      obtain ⟨f1, p1, r1⟩ := hg _ _ _ _ hP hv
-      exact ⟨f1, p1, r1⟩
+      obtain ⟨f1, k1⟩ := hg _ _ _ _ hv
+      exact ⟨f1, fun hP => ⟨(k1 hP).1, (k1 hP).2⟩⟩
     · cases h
     · cases h
 
@@ -231,6 +235,19 @@ theorem Stable.opt {α β : Type} {R : St → α → β → Prop} (hR : Stable R
   exact hR _ _ _ _ hf h
 
 end
+
+/-! ### the renaming agrees with the resource map -/
+
+/-- `ρ` names, for every base resource of the resource map, the root resource it maps to -/
+def Cons (ρ : Nat → Res) (st : St) : Prop :=
+  ∀ b s x, lookup st.resourceMap b = some s → st.types.resources[s]? = some x →
+    ρ b = ⟨st.types.uid, s, x.name⟩
+
+/-- consistency with a later state implies consistency with an earlier one -/
+theorem Cons.back {ρ : Nat → Res} {st st' : St} (hf : Frame st st') (h : Cons ρ st') : Cons ρ st := by
+  intro b s x hb hx
+  obtain ⟨x', hx', hn, _⟩ := hf.ext.resources s x hx
+  rw [h b s x' (hf.rmap b s hb) hx', hn, hf.ext.uid]
 
 theorem lookup_cons {κ β : Type} [DecidableEq κ] (k : κ) (v : β) (m : List (κ × β)) (k' : κ) :
     lookup ((k, v) :: m) k' = if k = k' then some v else lookup m k' := rfl
